@@ -520,6 +520,19 @@ func c01Data(r *rand.Rand, i int) map[string]interface{} {
 	if r.Intn(8) == 0 {
 		d["x"] = nil
 	}
+	// a list BELOW the top level (unwind / fields / render on a nested path; seed C01-l: unwind copies
+	// that share the nested map).  A function of i only: the random stream of every user of this
+	// generator stays as it was.
+	switch i % 4 {
+	case 0:
+		d["info"] = map[string]interface{}{"tags": []interface{}{"n1", "n2", float64(i)}, "n": float64(i)}
+	case 2:
+		d["info"] = map[string]interface{}{"tags": []interface{}{}}
+	case 3:
+		if i%8 == 3 {
+			d["info"] = map[string]interface{}{"tags": "s"}
+		}
+	}
 	return d
 }
 
@@ -768,7 +781,7 @@ func c01RandomProgram(r *rand.Rand, n int, prod bool, withDistinct bool) []c01St
 			}
 			q = append(q, c01Stmt{"fields": ks})
 		case c == 13:
-			q = append(q, c01Stmt{"unwind": Pick(r, []string{"tags", "tags", "x", "missing", "nested.k", "nested", "_gid"})})
+			q = append(q, c01Stmt{"unwind": Pick(r, []string{"tags", "tags", "x", "missing", "nested.k", "nested", "_gid", "info.tags", "info.tags"})})
 		case c == 14 && withDistinct:
 			fs := []interface{}{}
 			for i := r.Intn(3); i > 0; i-- {
@@ -1039,6 +1052,13 @@ func c01Gen(r *Run) {
 			{{"e": sl()}, {"distinct": sl()}, {"out": sl()}, {"distinct": sl()}, {"outE": sl()}, {"distinct": sl()}},
 			{{"v": sl()}, {"distinct": sl("_label")}, {"count": ""}},
 			{{"v": sl()}, {"distinct": sl("_label")}, {"out": sl()}, {"distinct": sl("_label")}},
+			// unwind on a path below the top level: one row per item, each with ITS item; the marked element keeps the list
+			{{"v": sl()}, {"unwind": "info.tags"}},
+			{{"v": sl()}, {"as": "a"}, {"unwind": "info.tags"}, {"select": map[string]interface{}{"marks": sl("a")}}},
+			{{"v": sl()}, {"unwind": "info.tags"}, {"render": map[string]interface{}{"t": "info.tags", "g": "_gid", "n": "info.n"}}},
+			{{"v": sl()}, {"unwind": "info.tags"}, {"unwind": "tags"}, {"path": sl()}},
+			{{"v": sl()}, {"out": sl()}, {"unwind": "info.tags"}, {"distinct": sl("info.tags")}},
+			{{"e": sl()}, {"unwind": "info.tags"}, {"count": ""}},
 		} {
 			must = true
 			query(q)
